@@ -738,3 +738,11 @@ func impliedAtoms(cond ast.Expr, val bool) []condAtom {
 	}
 	return []condAtom{{ast.Unparen(cond), val}}
 }
+
+// fieldSelNode: fieldSel for an arbitrary node.
+func fieldSelNode(pk *packages.Package, n ast.Node) *types.Var {
+	if e, ok := n.(ast.Expr); ok {
+		return fieldSel(pk, e)
+	}
+	return nil
+}
